@@ -17,7 +17,9 @@ GRIDS = (
 MODES = [0, 1, 2, 3, 4, 8]
 WIDTHS = [None, 0.7]
 THRESHOLDS = [0.5, "auto", "mean", "otsu"]
-IMAGES = ["one", "two", "empty"]
+IMAGES = ["one", "two", "empty", "speck", "one+speck"]
+# a single bright cell (an object smaller than the grid resolution), far away from the rendered droplets
+SPECK = {"cart1": (13,), "cart2": (10, 12), "cart3": (6, 6, 7), "polar": (0,), "spherical": (0,), "cyl": (0, 14)}
 
 
 def make_grid(fam, per):
@@ -55,6 +57,16 @@ def make_field(grid, fam, image):
         ds = [DiffuseDroplet([0.0, 0.0, 0.0], 4.3, 0.9)]
     else:
         ds = [DiffuseDroplet([0.0, 0.0, 2.3], 2.9, 0.8), DiffuseDroplet([0.0, 0.0, 9.6], 2.4, 0.8)]
+    if image in ("speck", "one+speck"):
+        if image == "speck":
+            field = ScalarField(grid, 0.0)
+        else:
+            field = Emulsion(ds[:1]).get_phasefield(grid)
+            if fam in ("polar", "spherical"):  # a second object can only be an outer shell there (not at the origin: ignored)
+                field.data[9] = 1.0
+                return field, None
+        field.data[SPECK[fam]] = 1.0
+        return field, None
     n = 1 if image == "one" else len(ds)
     return Emulsion(ds[:n]).get_phasefield(grid), n
 
@@ -64,7 +76,7 @@ class C19(Property):
     rule = (
         "Exhaustive enumeration of the configuration cube: grid family and periodicity (Cartesian 1-D x2, 2-D x4, 3-D x8 masks, polar, "
         "spherical, cylindrical x2) x modes {0,1,2,3,4,8} x interface_width {None, 0.7} x refine {off,on} x threshold rule "
-        "{0.5, auto, mean, otsu} x image {one droplet, two droplets, empty}. Oracle: expected class from the request (perturbed 2D / 3D / axisymmetric "
+        "{0.5, auto, mean, otsu} x image {one droplet, two droplets, empty, a single bright cell, one droplet + a single bright cell}. Oracle: expected class from the request (perturbed 2D / 3D / axisymmetric "
         "with exactly `modes` amplitudes, else Diffuse when a width is given or refinement is on, else Spherical; ValueError for modes "
         "in 1-D), exact type, dimension, carried width, one shared dtype and formable Emulsion.data. Non-trivial = configuration with "
         ">= 1 located droplet; distinct = distinct configuration."
@@ -130,7 +142,7 @@ class C19(Property):
             exp = droplets.DiffuseDroplet
         else:
             exp = droplets.SphericalDroplet
-        if spec["image"] != "empty" and spec["threshold"] in (0.5, "auto"):
+        if n_true is not None and spec["image"] != "empty" and spec["threshold"] in (0.5, "auto"):
             ctx.require(len(res) == n_true, "count", f"{n_true} droplets rendered, {len(res)} located")
         ctx.nontrivial = len(res) >= 1
         dtypes = set()
